@@ -25,8 +25,18 @@ ResultExpr(t) ==     \* the expression that produces the elements of the result
     ELSE t
 
 Packaging == {"tuple", "list", "dict"}
+(* C14's antecedent: packaged values are only ever taken apart again.  A package that is  *)
+(* consumed whole by an aggregating operator (Count(Select(seq, lambda x: (a, b)))) is    *)
+(* outside the property; it legitimately survives.                                        *)
+RECURSIVE OnlyTakenApart(_)
+OnlyTakenApart(t) ==
+    /\ (t.k = "call" /\ ((t.a[1].k = "name" /\ t.a[1].s \in {"Count", "len", "Sum", "Max", "Min"})
+                        \/ (t.a[1].k = "attr" /\ t.a[1].s \in {"Count", "Sum", "Max", "Min"})))
+          => CountKinds(t, Packaging) = 0
+    /\ \A i \in 1..Len(t.a) : OnlyTakenApart(t.a[i])
 ConstProj(s) == \/ (s.k = "sub" /\ s.a[2].k \in {"int", "str"})
 ShapeOK(in, out) ==
+    ~OnlyTakenApart(in) \/
     /\ CountKinds(out, Packaging) <= CountKinds(ResultExpr(in), Packaging)
     /\ \A s \in SubTerms(out) : ~(ConstProj(s) /\ s.a[1].k \in Packaging)
 
